@@ -3,6 +3,7 @@ package main
 import (
 	"math"
 	"math/rand"
+	"strconv"
 
 	"github.com/deadsy/sdfx/render"
 	"github.com/deadsy/sdfx/sdf"
@@ -81,11 +82,16 @@ type measShape struct {
 }
 
 func measure(ms measShape, which string, cells, seq int, rnd *rand.Rand) measObs {
-	var r render.Render3
-	if which == "mcu" {
-		r = render.NewMarchingCubesUniform(cells)
-	} else {
-		r = render.NewMarchingCubesOctree(cells)
+	// one renderer object per (kind, cells) for the whole run: a renderer may be used for any number of shapes
+	key := which + "/" + strconv.Itoa(cells)
+	r := sceneR3[key]
+	if r == nil {
+		if which == "mcu" {
+			r = render.NewMarchingCubesUniform(cells)
+		} else {
+			r = render.NewMarchingCubesOctree(cells)
+		}
+		sceneR3[key] = r
 	}
 	ts := render.ToTriangles(ms.s, r)
 	box, h := sampledBox(ms.s, which, cells)
@@ -184,6 +190,18 @@ func c06Measure(args []string) error {
 		ms := measShape{name: "long-rod", kind: "exact", s: sdf.Transform3D(rod, sdf.Translate3d(off)), vol: 40, param: fmtf(float64(ax))}
 		for _, which := range []string{"mcu", "mco"} {
 			emit(measure(ms, which, 520, 0, rnd))
+		}
+	}
+	// different shapes with the same bounding box, one after the other on the same renderer object
+	{
+		sp, _ := sdf.Sphere3D(1)
+		cu, _ := sdf.Box3D(v3.Vec{X: 2, Y: 2, Z: 2}, 0)
+		for _, which := range []string{"mcu", "mco"} {
+			for round := 0; round < 2; round++ {
+				emit(measure(measShape{name: "samebox-cube", kind: "exact", s: cu, vol: 8, param: fmtf(float64(round))}, which, 32, 0, rnd))
+				emit(measure(measShape{name: "samebox-sphere", kind: "sphere", s: sp, radius: 1, vol: 4.0 / 3 * math.Pi, param: fmtf(float64(round)),
+					surf: func(r *rand.Rand) (v3.Vec, bool) { return randUnit(r), true }}, which, 32, 0, rnd))
+			}
 		}
 	}
 	for rep := 0; rep < reps; rep++ {
